@@ -1691,7 +1691,7 @@ func mutate(c *vh.Ctx, b []byte) []byte {
 }
 
 func gen(c *vh.Ctx) {
-	nprog, nraw, depth := 2600, 3000, 4
+	nprog, nraw, depth := 1800, 2000, 4
 	nbig := 10
 	if c.Thorough {
 		nprog, nraw, depth, nbig = 40000, 40000, 7, 60
